@@ -65,6 +65,13 @@ def goIsSpace (c : Char) : Bool :=
 
 def goBlank (s : String) : Bool := s.toList.all goIsSpace
 
+/-- strconv.ParseInt(text, 10, 64) on the text of an oC_IntegerLiteral succeeds exactly for a non-empty string of decimal digits
+whose value is at most 2^63-1 (a hexadecimal `0x…` or octal `0o…` literal is not a base-10 string): the visitors record an error
+for every other integer literal, so a tree containing one is never accepted -/
+def digitsValue (s : String) : Nat := s.toList.foldl (fun a c => a * 10 + (c.toNat - '0'.toNat)) 0
+def intLiteralInRange (s : String) : Bool :=
+  !s.isEmpty && s.toList.all Char.isDigit && decide (digitsValue s ≤ 9223372036854775807)
+
 /-- guard atoms are functions of the node's direct children only -/
 def evalAtom (code : Nat × Nat) (kids : List Tree) : Bool :=
   match code.1 with
